@@ -70,6 +70,12 @@ static std::vector<Case> make_cases(const Config &cfg) {
         { Case c = base(d); c.sender = std::string("s\0@x", 4); c.input = c.daemon == "qmtpd" ? qmtp_session(c.sender, rc, body) : qmqp_session(c.sender, rc, body); c.name = std::string(d) + " NUL-in-sender"; c.expect_class = 5; v.push_back(c); }
         for (const char *bad : {"x:", "12", "5:abc,", "99999999999999999999:", "0:,", "3:abc;", "-1:,", "200000001:"}) { Case c = base(d); c.input = std::string(bad) + c.input; c.name = std::string(d) + " malformed-frame[" + bad + "]"; c.expect_class = -1; c.wellformed = false; v.push_back(c); }
       }
+    } else if (fam == "shortreads") {
+      // every read of the daemon (network input, the queue program's error text on descriptor 6) may return fewer bytes than are there:
+      // legal behaviour of a pipe, so nothing may change
+      { Case c = base(d); c.name = std::string(d) + " (short reads) accepted message"; c.expect_class = 0; v.push_back(c); }
+      { Case c = base(d); c.name = std::string(d) + " (short reads) queue-exit-82[Dcustom permanent text]"; c.qstatus = 82; c.qtext = "Dcustom permanent text"; c.expect_class = 5; v.push_back(c); }
+      { Case c = base(d); c.name = std::string(d) + " (short reads) queue-exit-82[Zcustom temporary text]"; c.qstatus = 82; c.qtext = "Zcustom temporary text"; c.expect_class = 4; v.push_back(c); }
     } else if (fam == "faults") {
       // one failing call (fork, pipe, exec, wait, read, write) or short read anywhere in the daemon or in its child before the exec
       Case c = base(d); c.name = std::string(d) + " with one failing call"; c.expect_class = 40; v.push_back(c);
@@ -155,6 +161,7 @@ struct C07 : Scenario {
   }
   int faults_seen = 0;
   void alternatives(World &w, Proc &p, const Req &r, std::vector<Alt> &a) override {
+    if (cfg.get("family", "status") == "shortreads" && w.ex->bound[BK_FAULT] > 0 && p.vpid == dpid && r.op == VK_READ) { Ofd *o = w.O(p, r.a[0]); if (o && o->kind == K_PIPE_R && o->pipe->buf.size() > 1 && r.a[1] > 1) { a.push_back({BK_FAULT, ALT_SHORT, 1}); if (o->pipe->buf.size() > 3) a.push_back({BK_FAULT, ALT_SHORT, (int) o->pipe->buf.size() - 1}); } return; }
     if (cfg.get("family", "status") != "faults" || w.ex->bound[BK_FAULT] <= 0) return;
     bool daemon_side = p.vpid == dpid || (p.ppid == dpid && p.standin.empty() && p.name.find("qmail-queue") == std::string::npos);   // the daemon, or its child before the exec
     if (!daemon_side) return;
